@@ -142,7 +142,9 @@ CLAIMED = {
             "corrupt / replace replies (cut stream, well-framed truncation with lengths fixed up, bit flip, encapsulation status on a "
             "complete reply, header-only error) for generic, Logix tag (single, fragmented, multi-service, read-modify-write) and "
             "SLC calls; the corrupted reply is recomputed by the specification from the logged corruption.",
-            "Trusted: as C10; status texts are data exported from the code, the rule is the specification's.",
+            "Trusted: as C10; status texts are data exported from the code, the rule is the specification's; the MEANING of the general "
+            "status codes is stated by the specification (EnumMap!StatusKeyword, one key word per code from CIP Vol 1 app. B), so a "
+            "text filed under the wrong code is reported.",
             "TLA+ reply-classification contract; recorded sessions with injected statuses and corrupted replies validated", "5/C13"),
     "C14": ("session",
             "TraceSession!CheckGeneric compares the message-router request the specification parses out of each frame (service, "
